@@ -81,6 +81,8 @@ def walk_shallow(root):
 def walk_function(fn):
     """all ast nodes in the body of fn, not descending into nested function / class definitions"""
     for s in fn.body:
+        if isinstance(s, FuncT + (ast.ClassDef,)):
+            continue
         yield from walk_shallow(s)
 
 
